@@ -118,6 +118,12 @@ def neutralise(doc, feature: str):
             if b["k"] == "p":
                 b["h"] = None
             return b
+    elif feature == "flow.text-before-first-heading":
+        for u in doc["units"]:
+            heads = [i for i, b in enumerate(u["blocks"]) if b["k"] == "p" and b.get("h")]
+            if heads and heads[0] > 0:
+                u["blocks"].insert(0, {"k": "p", "inl": [{"k": "t", "tok": "ZM0HEAD", "sty": 0}], "h": 1})
+        return doc
     elif feature == "excluded.header-footer":
         doc["header"] = doc["footer"] = None
     elif feature == "excluded.speaker-notes":
